@@ -133,6 +133,16 @@ def netOp (n : NSt) (w : List String) : NSt × String :=
         | some (m :: rest) => ({ n with outbox := insertN n.outbox (num c) rest }, s!"M[{showMsg m}]")
         | _ => (n, if rc.closedByLib then "eof" else "none")
       else (n, "bad-op")
+  | ["recvslow", sid, _] =>
+    -- one poll of recv with nothing queued (the generator issues it only then), future dropped: no effect
+    (match lookupN n.s.socks (num sid) with
+     | some so => (n, if so.inbox.isEmpty then "pending" else "ready ok")
+     | none => (n, "bad-op no-sock"))
+  | ["pause", _] => (n, "ok")
+  | ["rawabort", _, _] =>
+    -- connections reset before / while the accept loop takes them: each fails only itself (whether it is
+    -- reported as AcceptFailed depends on the race, so cases with this op do not read the event count)
+    (n, "ok")
   | ["rawclose", c] => ({ n with s := rawClose n.s (num c) }, "ok")
   | ["recv", sid] =>
     match lookupN n.s.socks (num sid) with
